@@ -285,4 +285,5 @@ def run(ck, F):
     for r in (r11_1, r11_2, r11_3, r11_4, r11_5, r11_6, r11_7, r11_8, r11_9):
         ck.run_rule(r)
     import c19
-    ck.run_rule(c19.r19_5)     # a held-back connection failure must surface instead of a clean end-of-stream (all four receive paths)
+    ck.run_rule(c19.r19_5)
+    ck.run_rule(c19.r19_5b)     # a held-back connection failure must surface instead of a clean end-of-stream (all four receive paths)
